@@ -10,7 +10,8 @@ from . import common as c
 
 SUPPORT = ["Ast/Linked.v", "Ast/Tree.v", "Ast/Node.v", "Ast/Refute.v", "Ast/LinkedProofs.v", "Ast/IndexProofs.v",
            "Ast/NodeRefine.v", "Ast/ArrayRefine.v", "Ast/RootRefine.v", "Ast/ObjectRefine.v", "Ast/ObjectOps.v",
-           "Ast/ObjectSet.v", "Ast/RootRefine2.v", "Ast/ArrayOps.v", "Ast/ArraySet.v", "Ast/RootRefine3.v"]
+           "Ast/ObjectSet.v", "Ast/RootRefine2.v", "Ast/ArrayOps.v", "Ast/ArraySet.v", "Ast/RootRefine3.v", "Ast/ObjectIdx.v", "Ast/ObjectPop.v", "Ast/ObjectIdxOps.v",
+           "Ast/RootRefine4.v"]
 
 CLAIM = {
     "gens": ["AstConsts"],
@@ -272,10 +273,9 @@ def run(ctx):
         "documents are valid JSON",
         "caching.StrHash is a parameter of the model; runs are collision-free, the theorems about the index assume the hash injective "
         "on the keys present",
-        "node_refines_tree is proved for sequences of ROOT-level operations in three fragments: Look/Load/Add (any document), "
-        "+ Set/Unset with non-empty keys (any document, collision-free hash), + SetByIndex/UnsetByIndex/Pop (array-rooted documents); "
-        "Len, Move, SortKeys, ForEach, MarshalJSON, Interface, positional operations on objects and every operation below the root "
-        "are covered by the three-way replay only",
+        "node_refines_tree is proved at the ROOT (C15_node_refines_tree_root): every sequence of Look, Len on a non-lazy node, Load, Add, "
+        "Set/Unset with non-empty keys, SetByIndex, UnsetByIndex, Pop on any document, for a collision-free hash that never returns 0; "
+        "Move, SortKeys, ForEach, MarshalJSON, Interface and every operation below the root are covered by the three-way replay only",
         "V_ANY nodes, Cap(), IndexOrGet, the *UseNode / Map / Array converters and concurrent use are not modelled",
     ]
     p_ok = c.standard_P(ctx, CLAIM["gens"], SUPPORT)
